@@ -7,6 +7,10 @@ Two groups:
                 functions rarely reaches (views, tagged responses, gRPC mappings, security, file servers, recursion)
   REPRODUCERS   the minimal program of every defect class this check has found so far (a regression corpus): on a
                 tree without the corresponding repair each one is a deterministic VIOLATION / KNOWN-FINDING.
+  FAMILIES      programs around the regressions seeded into goa that an earlier version of this check missed (a
+                requirement with several scopes of which a later one is undefined; user types that reach themselves
+                through arrays / maps / each other, used by methods with gRPC and HTTP transports): valid and invalid
+                members of each family, labelled with the family.
 Notation: N(f, n, t, v, kids); v defaults to "fn" when kids are given, else "plain"."""
 
 
@@ -96,6 +100,76 @@ DESIGNS = [
          N("Files", "/f/{*p}", "dir/", kids=[N("Redirect", "/r", "301"), N("Meta", "swagger:generate", "false")]))],
 ]
 
+# ---------------------------------------------------------------------------------------------- families
+def F(n, t="-", kids=None, **kw):
+    return N("Field", n, t, kids=kids, **kw)
+
+
+JWT = N("JWTSecurity", "sc1", kids=[N("Scope", "api:read", v="desc"), N("Scope", "api:write", v="desc")])
+OAUTH = N("OAuth2Security", "sc2", kids=[N("ClientCredentialsFlow", "url"), N("Scope", "api:read", v="desc")])
+TOKEN_PAYLOAD = N("Payload", kids=[N("Token", "a", "String"), N("Required", "a")])
+
+
+def secured(*reqs, service_reqs=(), payload=TOKEN_PAYLOAD, schemes=(JWT,)):
+    return list(schemes) + [svc(*service_reqs, meth(*reqs, payload, N("HTTP", kids=[N("POST", "/x")])))]
+
+
+def req(scheme, *scopes):
+    return N("Security", scheme, kids=[N("Scope", sc) for sc in scopes])
+
+
+SCOPES = [
+    ("scope.defined", secured(req("sc1", "api:read", "api:write"))),
+    ("scope.undefined_alone", secured(req("sc1", "nosuch"))),
+    ("scope.undefined_first", secured(req("sc1", "nosuch", "api:read"))),
+    ("scope.undefined_after_defined", secured(req("sc1", "api:read", "nosuch"))),
+    ("scope.undefined_last_of_three", secured(req("vsc1", "api:read", "api:write", "nosuch"))),
+    ("scope.second_requirement_undefined", secured(req("sc1", "api:read"), req("sc1", "api:write", "nosuch"))),
+    ("scope.service_level_undefined_after_defined", secured(service_reqs=(req("sc1", "api:write", "nosuch"),))),
+    ("scope.defined_by_other_scheme_only", secured(req("sc2", "api:read", "api:write"), schemes=(JWT, OAUTH),
+                                                   payload=N("Payload", kids=[N("AccessToken", "a", "String"), N("Required", "a")]))),
+]
+
+
+def rec_types(kind):
+    """User types that reach themselves: kind = self reference through ... / mutual recursion through ..."""
+    return {
+        "self_attr": [N("Type", "T1", kids=[F("a"), F("b", "nT1")])],
+        "self_array": [N("Type", "T1", kids=[F("a"), F("b", "ArrnT1")])],
+        "self_array_value": [N("Type", "T1", kids=[F("a"), F("b", "ArrT1")])],
+        "self_map": [N("Type", "T1", kids=[F("a"), F("b", "MapSnT1")])],
+        "self_map_value": [N("Type", "T1", kids=[F("a"), F("b", "MapST1")])],
+        "mutual_attr": [N("Type", "T1", kids=[F("a"), F("b", "nT2")]), N("Type", "T2", kids=[F("a", "nT1")])],
+        "mutual_array": [N("Type", "T1", kids=[F("a"), F("b", "ArrnT2")]), N("Type", "T2", kids=[F("a", "ArrnT1")])],
+        "mutual_array_value": [N("Type", "T1", kids=[F("a"), F("b", "ArrT2")]), N("Type", "T2", kids=[F("a", "ArrT1")])],
+        "mutual_map": [N("Type", "T1", kids=[F("a"), F("b", "MapSnT2")]), N("Type", "T2", kids=[F("a", "MapSnT1")])],
+        "mutual_array_map": [N("Type", "T1", kids=[F("a"), F("b", "ArrnT2")]), N("Type", "T2", kids=[F("a", "MapSnT1"), F("b", "ArrnT2")])],
+    }[kind]
+
+
+def rec_method(where, transport):
+    use = {"payload": [N("Payload", t="T1")], "result": [N("Result", t="T1")], "error": [N("Error", "e1", "T1")],
+           "streaming_payload": [N("StreamingPayload", t="T1"), N("Result", t="String")],
+           "array_payload": [N("Payload", t="ArrnT1")], "payload_and_result": [N("Payload", t="T1"), N("Result", t="ArrT1")]}[where]
+    tr = {"grpc": [N("GRPC", kids=[])], "http": [N("HTTP", kids=[N("POST", "/x")])],
+          "both": [N("HTTP", kids=[N("POST", "/x")]), N("GRPC", kids=[])],
+          # a request message that names an attribute the payload lacks: must be reported, not crash
+          "grpc_dangling": [N("GRPC", kids=[N("Message", kids=[A("zz", t="-")])])]}[transport]
+    return [svc(meth(*(use + tr)))]
+
+
+RECURSION = []
+for kind in ("self_attr", "self_array", "self_array_value", "self_map", "self_map_value", "mutual_attr", "mutual_array", "mutual_array_value", "mutual_map",
+             "mutual_array_map"):
+    for where, transport in (("payload", "grpc"), ("result", "grpc"), ("error", "grpc"), ("payload", "http"), ("result", "http")):
+        RECURSION.append(("recursion.%s.%s.%s" % (kind, where, transport), rec_types(kind) + rec_method(where, transport)))
+for kind in ("self_array", "mutual_array", "mutual_array_map"):
+    for where, transport in (("streaming_payload", "grpc"), ("array_payload", "grpc"), ("payload_and_result", "both"), ("payload", "grpc_dangling"),
+                             ("error", "http"), ("streaming_payload", "http")):
+        RECURSION.append(("recursion.%s.%s.%s" % (kind, where, transport), rec_types(kind) + rec_method(where, transport)))
+
+FAMILIES = SCOPES + RECURSION
+
 # one minimal program per defect class found by this check (the deviation that describes it in DSLProgram.tla)
 REPRODUCERS = [
     ("crash.server_outside_api", [svc(N("Server", "srv1"))]),
@@ -119,6 +193,28 @@ REPRODUCERS = [
     ("crash.body_empty_dsl", [svc(meth(N("Payload", kids=[A("a")]), N("HTTP", kids=[N("POST", "/"), N("Body", kids=[])])))]),
     ("accept.body_attribute", [svc(meth(N("Payload", kids=[]), N("HTTP", kids=[N("POST", "/"), N("Body", kids=[A("zz", t="-")])])))]),
     ("accept.response_tag", [svc(meth(N("Result", kids=[A("a")]), N("HTTP", kids=[N("GET", "/"), N("Response", t="200", kids=[N("Tag", "zz")]), N("Response", t="201", v="plain")])))]),
+    # second round
+    ("crash.base_cycle_tag_lookup", [N("Type", "T1", kids=[N("Extend", t="T2"), A("a")]), N("Type", "T2", kids=[N("Extend", t="T1"), A("b")]), svc(meth(N("Payload", t="T1")))]),
+    ("crash.base_cycle_tag_lookup", [N("Type", "T1", kids=[N("Extend", t="T1")]), svc(meth(N("Payload", t="T1"), N("HTTP", kids=[N("POST", "/")])))]),
+    ("crash.base_cycle_tag_lookup", [N("Type", "T1", kids=[N("Extend", t="T2"), A("a")]), N("Type", "T2", kids=[N("Extend", t="T1"), A("b")]), N("JWTSecurity", "sc1", kids=[]),
+                                     svc(meth(N("Security", "sc1"), N("Payload", kids=[N("Extend", t="T1"), N("Token", "zz", "String")]), N("HTTP", kids=[N("GET", "/")])))]),
+    ("crash.base_cycle_tag_lookup", [N("Type", "T1", kids=[N("Extend", t="T2"), F("a")]), N("Type", "T2", kids=[N("Extend", t="T1"), F("b")]), N("JWTSecurity", "sc1", kids=[]),
+                                     svc(meth(N("Security", "sc1"), N("Payload", kids=[N("Extend", t="T1"), N("TokenField", "zz", "String")]), N("GRPC", kids=[])))]),
+    ("crash.extend_cycle_through_attribute", [N("Type", "T2", kids=[A("b", t="-", kids=[N("Extend", t="T2"), A("a")])]), svc(meth(N("Payload", t="T2"), N("HTTP", kids=[N("POST", "/")])))]),
+    ("crash.extend_cycle_through_attribute", [N("Type", "T1", kids=[N("Extend", t="T2")]), N("Type", "T2", kids=[F("b", kids=[N("Extend", t="T1"), F("a")])]),
+                                              svc(meth(N("Payload", t="T2"), N("GRPC", kids=[])))]),
+    ("crash.meta_without_value", [N("Type", "T1", kids=[N("Meta", "struct:pkg:path", "-"), A("a")]), svc(meth(N("Payload", t="T1")))]),
+    ("crash.meta_without_value", [N("Type", "T1", kids=[N("Meta", "struct:type:name", "-"), A("a"), N("Required", "zz")]), svc(meth(N("Payload", t="T1")))]),
+    ("crash.api_grpc_error_response", [N("API", "api1", kids=[N("GRPC", kids=[N("Response", "e1", "5", v="plain")])]), svc(meth(N("Error", "e1"), N("GRPC", kids=[])))]),
+    ("crash.api_grpc_error_response", [N("API", "api1", kids=[N("Error", "e1"), N("GRPC", kids=[N("Response", "e1", "5", v="plain")])]), svc(meth(N("Error", "e1"), N("GRPC", kids=[])))]),
+    ("crash.api_grpc_error_response", [N("API", "api1", kids=[N("Error", "e1"), N("GRPC", kids=[N("Response", "e1", "5", kids=[N("Description", "txt")])])]),
+                                       svc(N("Error", "e1"), meth(N("Result", kids=[F("a")]), N("GRPC", kids=[])))]),
+    ("accept.error_response", [N("API", "api1", kids=[N("GRPC", kids=[N("Response", "e1", "5", v="plain")])]), svc(meth(N("GRPC", kids=[])))]),
+    ("crash.grpc_response_message_empty_dsl", [svc(meth(N("Result", t="String"), N("GRPC", kids=[N("Response", t="0", kids=[N("Message", kids=[])])])))]),
+    ("crash.grpc_response_message_empty_dsl", [svc(meth(N("Error", "e1"), N("GRPC", kids=[N("Response", "e1", "5", kids=[N("Message", kids=[])])])))]),
+    ("crash.enum_default_uncomparable", [svc(meth(N("Payload", kids=[A("a", "Bytes", kids=[N("Enum", t="bytes"), N("Default", t="bytes")])])))]),
+    ("crash.enum_default_uncomparable", [svc(meth(N("Payload", kids=[A("a", "Any", kids=[N("Enum", t="arr"), N("Default", t="arr")])])))]),
+    ("crash.enum_default_uncomparable", [N("Type", "T1", kids=[A("a", "Any", kids=[N("Enum", t="mapval"), N("Default", t="mapval")])]), svc(meth(N("Result", t="T1")))]),
 ]
 
 
@@ -126,6 +222,6 @@ def programs(first_id):
     out = []
     for k, tops in enumerate(DESIGNS):
         out.append({"id": first_id + len(out), "nodes": flat(tops), "seed": "design-%d" % (k + 1)})
-    for dev, tops in REPRODUCERS:
+    for dev, tops in REPRODUCERS + FAMILIES:
         out.append({"id": first_id + len(out), "nodes": flat(tops), "seed": dev})
     return out
